@@ -720,6 +720,8 @@ func runC07(c *Ctx, r *Report) {
 		}
 		r.Floor("R-C07.11", "renderings of whole CIDs (String, KeyString, Bytes, Encode)", nid, 20)
 	}
+	r.Doc("R-C07.13", "a codec's PreSign hands back the entry it was given unless its link key is set (the bytes a keyless codec signs and verifies are those of the entry itself, not of a copy: copying de-duplicates the link lists)")
+	preSignHandsBackWhatItGot(c, r, "R-C07.13")
 	r.Doc("R-C07.12", "nothing is removed from the value that is signed: no delete on the map handed to the serialiser on the signing path (a member dropped for some entries — the references of older versions — can be changed in them without invalidating the signature)")
 	{
 		ndel := 0
